@@ -111,13 +111,14 @@ ALPHABET = {'quick': QUICK, 'thorough': QUICK + EXTRA}
 BY_ID = {v['id']: v for v in QUICK + EXTRA}
 
 ROUTES = {
-    'quick': ('typed', 'native', 'cells', 'lit', 'lit-cell', 'cell-lit'),
+    'quick': ('typed', 'native', 'cells', 'lit', 'lit-cell', 'cell-lit',
+              'fn'),
     'thorough': ('typed', 'native', 'typed-native', 'native-typed', 'cells',
-                 'lit', 'lit-cell', 'cell-lit', 'fcell'),
+                 'lit', 'lit-cell', 'cell-lit', 'fcell', 'fn'),
 }
 # which operand (0 = left, 1 = right) needs a literal spelling
 NEEDS_LIT = {'lit': (0, 1), 'lit-cell': (0,), 'cell-lit': (1,),
-             'fcell': (0, 1)}
+             'fcell': (0, 1), 'fn': (0, 1)}
 
 
 def abstract(v):
@@ -166,12 +167,36 @@ def literal(v):
     return None
 
 
+def fn_spelling(v):
+    """The value as the result of a function call written into the
+    comparison itself (route 'fn'): the library's functions hand back native
+    Python values (ROUND a float, ISNUMBER a bool, LEFT a str), and the
+    operators have to treat them as the Excel values they are."""
+    lit = literal(v)
+    if lit is None:
+        return None
+    if v['cls'] == 'num':
+        x = float(v['v'])
+        if x != round(x, 9) or abs(x) >= 1e6 or (x == 0 and str(x)[0] == '-'):
+            return None
+        return 'ROUND(%s,9)' % lit
+    if v['cls'] == 'bool':
+        return 'ISNUMBER(1)' if v['v'] else 'ISTEXT(1)'
+    return 'LEFT(%s,99)' % lit
+
+
+def spelling(route, v):
+    return fn_spelling(v) if route == 'fn' else literal(v)
+
+
 def values_for(route, tier):
     """(left candidates, right candidates) of a route."""
     alph = ALPHABET[tier]
     need = NEEDS_LIT.get(route, ())
-    left = [v for v in alph if 0 not in need or literal(v) is not None]
-    right = [v for v in alph if 1 not in need or literal(v) is not None]
+    left = [v for v in alph if 0 not in need
+            or spelling(route, v) is not None]
+    right = [v for v in alph if 1 not in need
+             or spelling(route, v) is not None]
     return left, right
 
 
@@ -237,7 +262,7 @@ def _observe(route, op, a, b):
             formula_cells[addr] = '=' + literal(v)
             sides.append(addr.split('!')[1])
         elif pos in need:
-            sides.append(literal(v))
+            sides.append(spelling(route, v))
         else:
             sides.append(addr.split('!')[1])
             if v['carrier'] != 'absent':
